@@ -14,6 +14,11 @@ def main():
     if r.returncode != 0:
         print("patch does not apply:", r.stderr); return 2
     res = {}
+    # evidence written while a seeded change is applied is not evidence about /repo: keep the real files
+    saved = {}
+    for p in props:
+        ev = os.path.join(ROOT, "evidence", p + ".json")
+        saved[ev] = open(ev).read() if os.path.exists(ev) else None
     try:
         for p in props:
             r = subprocess.run([sys.executable, os.path.join(ROOT, "check.py"), p, "--tier", tier], capture_output=True, text=True, cwd=ROOT)
@@ -24,6 +29,13 @@ def main():
     finally:
         subprocess.run(["git", "-C", "/repo", "checkout", "--", "."], check=True)
         subprocess.run(["git", "-C", "/repo", "clean", "-fdq", "crates"], check=False)
+        for ev, txt in saved.items():
+            if txt is None:
+                if os.path.exists(ev): os.remove(ev)
+            else:
+                open(ev, "w").write(txt)
+        # generated model files follow /repo again
+        subprocess.run([sys.executable, "-c", "import sys; sys.path.insert(0, %r); from vlib import common as C; C.run_translators([])" % ROOT], check=False)
     caught = [p for p, (rc, _) in res.items() if rc == 1]
     print("CAUGHT by:", caught if caught else "NONE")
     return 0
